@@ -18,10 +18,16 @@ func Go(fn func()) {
 type Buffer []byte
 
 func GetBuf(size int) Buffer {
+	if verifOn {
+		return verifGet(size)
+	}
 	return bytespool.Get(size)
 }
 
 func ReleaseBuf(b Buffer) {
+	if verifOn && verifRelease(b) {
+		return
+	}
 	bytespool.Release(b)
 }
 
